@@ -10,11 +10,16 @@ Two kinds of cases, both compared with the Lean model `Driver/C32.lean` (Model/T
   and every thread's flag and trace.
 * ``hist`` — a history of test cases (terminating ones, busy loops in instrumented code, loops with
   sleeps, threads parked in uninstrumented code that wake up in the middle of a later test case,
-  code that swallows `TracingAbortedException`) is executed by the REAL `TestCaseExecutor` with small
-  real timeouts in a child interpreter.  A recording subclass of `ExecutionTracer` logs the schedule
-  that actually happened (every outermost tracer call, under a lock); that recorded schedule is run
-  through the Lean model, and the model's `execute` results are compared with what the executor
-  returned.
+  code that swallows `TracingAbortedException`, and LATE FINISHERS: terminating test cases whose tail
+  after the last thread check — an observer rendering a value with a blocking `__repr__`, an
+  after-test-case observer — outlasts the time bound, so that the abandoned thread still completes
+  and puts its result, in the grace period or in the middle of a later execution) is executed by the
+  REAL `TestCaseExecutor` with small real timeouts in a child interpreter.  A recording subclass of
+  `ExecutionTracer` and a logging wrapper of the result queue log the history that actually happened
+  (every outermost tracer call and every `put`, under a lock; one `collect` per `execute`); that
+  recorded history is run through the Lean model (tracer + per-execution result queues), and the
+  model's `execute` results (timeout / producing execution / trace / exceptions) are compared with
+  what the executor returned.
 
 Property oracle (independent of the Lean model, in the property's words):
 sched: a call by thread t never changes another thread's flag or trace, and everything in a thread's
@@ -24,7 +29,10 @@ that is not a timeout contains no line, branch, predicate, code object or except
 test case executed on its own does not produce.
 
 Timing: wall-clock is only *measured* (soft bound → counter `slow`), never judged, except for a hang
-cap of 60 s + the configured bound (a `join` without timeout would block forever).
+cap of 60 s + the configured bound (a `join` without timeout would block forever).  Late finishers are
+released by events of the schedule (the executor's `stop()`, a later test's poke), not by sleeps sized
+against the bound (the `timer` variant sleeps first-join + maxT/2 and is never judged either): a late
+finisher is a terminating test case — whatever it reports must be a timeout or ⊆ its solo result.
 """
 from __future__ import annotations
 
@@ -248,6 +256,9 @@ HARD = 900.0
 _lock = threading.Lock()
 RELEASE, THREAD = {}, {}
 STOP_SPIN = False
+OPEN = False         # set at the end of a history: nothing blocks any more
+GATES = {}           # key -> "stop" | "poke" | ["timer", seconds]; a key that is not declared is open
+_armed = threading.local()
 
 
 def _ev(k):
@@ -261,7 +272,43 @@ def park(k):
     """Block in uninstrumented code (a sleep, as far as the tracer can tell) until poked."""
     with _lock:
         THREAD[k] = threading.current_thread()
-    _ev(k).wait(HARD)
+    if not OPEN:
+        _ev(k).wait(HARD)
+
+
+def gate(k):
+    """A slow spot in uninstrumented code (a blocking __repr__, a slow observer).  Mode "stop": parked
+    until the executor gives up on an execution (tracer.stop()); "poke": parked until a later test
+    case pokes k; ["timer", s]: a plain sleep of s seconds; undeclared: returns at once."""
+    mode = GATES.get(k)
+    if mode is None or OPEN:
+        return
+    with _lock:
+        THREAD[k] = threading.current_thread()
+    if isinstance(mode, (list, tuple)):
+        _ev(k).wait(float(mode[1]))
+    else:
+        _ev(k).wait(HARD)
+
+
+def fire_stop():
+    """The executor called tracer.stop(): whoever is parked at a "stop" gate goes on now."""
+    with _lock:
+        ks = [k for k in THREAD if GATES.get(k) == "stop"]
+    for k in ks:
+        _ev(k).set()
+
+
+def arm(k):
+    """The calling thread's after-test-case observer will pass gate k."""
+    _armed.k = k
+
+
+def fire_armed():
+    k = getattr(_armed, "k", None)
+    if k is not None:
+        _armed.k = None
+        gate(k)
 
 
 def poke(k, wait=0.25):
@@ -283,6 +330,8 @@ def tick():
 
 
 def release_all():
+    global OPEN
+    OPEN = True
     with _lock:
         evs = list(RELEASE.values())
     for e in evs:
@@ -290,11 +339,13 @@ def release_all():
 
 
 def reset():
-    global STOP_SPIN
+    global STOP_SPIN, OPEN
     with _lock:
         RELEASE.clear()
         THREAD.clear()
+        GATES.clear()
     STOP_SPIN = False
+    OPEN = False
 '''
 
 SUT_SRC = '''
@@ -360,6 +411,30 @@ def relay(k, a):
     _s.poke(k)
     r += work(a + 1)
     return r
+
+
+class Slow:
+    """A value that is slow to render (the observers render the values statements bind)."""
+
+    def __init__(self, k, r):
+        self.k = k
+        self.r = r
+
+    def __repr__(self):
+        _s.gate(self.k)
+        if self.r > 10:
+            return "Slow(big)"
+        return "Slow()"
+
+
+def late(k, a):
+    r = work(a)
+    return Slow(k, r)
+
+
+def late_post(k, a):
+    _s.arm(k)
+    return work(a)
 '''
 
 
@@ -384,6 +459,7 @@ def _make_recorder():
             self.cb_count: dict = {}
             self.truncated: set = set()
             self.recording = True
+            self.on_stop = None              # called after an outermost stop() (gate module)
             self._rec_ready = True
 
         def tid(self):
@@ -429,7 +505,19 @@ def _make_recorder():
             return self._wrap("exit", super().__exit__, *a)
 
         def stop(self):
-            return self._wrap("stop", super().stop)
+            outer = self._rec_ready and getattr(self._rec_depth, "d", 0) == 0
+            r = self._wrap("stop", super().stop)
+            if outer and self.on_stop is not None:
+                self.on_stop()
+            return r
+
+        def log_put(self, q, item, *a, **kw):
+            """`result_queue.put(result)` of a test thread, logged at its place in the schedule."""
+            with self._rec_lock:
+                q.put(item, *a, **kw)
+                if self.recording:
+                    self.log.append((self.tid(), ["put", exc_ids(
+                        sorted([i, type(e).__name__] for i, e in item.exceptions.items()))], False))
 
         def check(self):
             return self._wrap("check", super().check)
@@ -474,6 +562,47 @@ def _make_recorder():
     return Recorder()
 
 
+EXC_IDS = {"ValueError": 1, "KeyError": 2}
+
+
+def exc_ids(excs) -> list:
+    """[[statement index, exception type name]…] → [[statement index, small id]…] for the model."""
+    return [[i, EXC_IDS.get(n, 9)] for i, n in excs]
+
+
+class _LogQ:
+    """The queue handed to `_execute_test_case`, with `put` logged by the recorder."""
+
+    def __init__(self, q, rec):
+        self._q, self._rec = q, rec
+
+    def put(self, item, *a, **kw):
+        self._rec.log_put(self._q, item, *a, **kw)
+
+    def __getattr__(self, name):
+        return getattr(self._q, name)
+
+
+def _make_observer(sync):
+    from pynguin.testcase.execution_observers import RemoteExecutionObserver
+
+    class TailObserver(RemoteExecutionObserver):
+        """Renders the value every statement binds (as the assertion observers do) and does its
+        bookkeeping after the test case — both run after the last thread check of a test case."""
+
+        def before_test_case_execution(self, test_case):
+            pass
+
+        def after_statement_execution(self, statement, executor, namespace, exception):
+            if exception is None and statement.bound_variable is not None:
+                repr(namespace.get(statement.bound_variable))
+
+        def after_test_case_execution(self, executor, test_case, result):
+            sync.fire_armed()
+
+    return TailObserver()
+
+
 class _Env:
     """One instrumented copy of the SUT with its recording tracer (per metric set)."""
 
@@ -500,6 +629,8 @@ class _Env:
             with self.sp.instrumentation_tracer:
                 self.mod = importlib.import_module(self.name)
         self.sync = sys.modules[self.sync_name]
+        self.rec.on_stop = self.sync.fire_stop
+        self.observer = _make_observer(self.sync)
         self.import_log = list(self.rec.log)
         self.rec.log.clear()
 
@@ -548,6 +679,7 @@ def _worker_history(envs: dict, base: str, case: dict) -> dict:
         for _ in range(3):
             ex = TestCaseExecutor(sp, maximum_test_execution_timeout=20,
                                   test_execution_time_per_statement=20)
+            ex.add_remote_observer(env.observer)
             r = ex.execute(_build_test(t["stmts"]))
             if not r.timeout:
                 solo = _canon_result(r)
@@ -555,6 +687,7 @@ def _worker_history(envs: dict, base: str, case: dict) -> dict:
         out["solo"][key] = solo
     # ---- the history ------------------------------------------------------------------------------
     sync.reset()
+    sync.GATES.update({int(k): v for k, v in (case.get("gates") or {}).items()})
     if rec._current_thread_identifier is not None:  # noqa: SLF001
         out["notes"].append("current thread id not None at history start")
     rec.log.clear()
@@ -565,7 +698,7 @@ def _worker_history(envs: dict, base: str, case: dict) -> dict:
     class Exec(TestCaseExecutor):
         def _execute_test_case(self, test_case, ctx, q):  # runs in the test thread
             thread_of_test[id(test_case)] = rec.tid()
-            return super()._execute_test_case(test_case, ctx, q)
+            return super()._execute_test_case(test_case, ctx, _LogQ(q, rec))
 
     progress = {"i": -1, "done": False}
     results: list = []
@@ -578,6 +711,7 @@ def _worker_history(envs: dict, base: str, case: dict) -> dict:
         progress["main_tid"] = main_tid
         ex = Exec(sp, maximum_test_execution_timeout=case["maxT"],
                   test_execution_time_per_statement=case["perStmt"])
+        ex.add_remote_observer(env.observer)
         for i, t in enumerate(tests):
             progress["i"] = i
             test = _build_test(t["stmts"])
@@ -623,15 +757,39 @@ def _worker_history(envs: dict, base: str, case: dict) -> dict:
             ren[g] = len(ren)
     pre = [(0, o, r) for _, o, r in env.import_log]
     out["pre"] = len(pre)
-    out["evs"] = [[t, o] for t, o, _ in pre] + [[ren[g], o] for g, o, _ in log]
-    out["raised"] = [r for _, _, r in pre] + [r for _, _, r in log]
+    # ---- the history as the model sees it: tracer calls, puts of the test threads, and one collect
+    #      per execute() (placed where execute() returned; alive = the main thread called stop()) ------
+    exec_of_thread, collect_at, stopped = {}, {}, []
+    for i, (lo, hi, key) in enumerate(windows):
+        g = thread_of_test.get(key)
+        if g is not None:
+            exec_of_thread[g] = i
+        collect_at.setdefault(hi, []).append(i)
+        stopped.append(any(o == "stop" and ren[gg] == 0 for gg, o, _ in log[lo:hi]))
+    hist = [["call", 0, o] for _, o, _ in pre]
+    raised = [r for _, _, r in pre]
+    late_puts = 0
+    for j, (g, o, r) in enumerate(log):
+        for i in collect_at.get(j, ()):
+            hist.append(["collect", i, stopped[i]])
+        if isinstance(o, list) and o[0] == "put":
+            i = exec_of_thread[g]
+            hist.append(["put", i, ren[g], o[1]])
+            late_puts += 1 if stopped[i] else 0
+        else:
+            hist.append(["call", ren[g], o])
+            raised.append(r)
+    for i in collect_at.get(len(log), ()):
+        hist.append(["collect", i, stopped[i]])
+    out["hist"] = hist
+    out["raised"] = raised
+    out["late_puts"] = late_puts
     out["n"] = len(ren)
     out["truncated"] = sorted(ren[g] for g in rec.truncated if g in ren)
     execs = []
     for i, (lo, hi, key) in enumerate(windows):
         g = thread_of_test.get(key)
-        stopped = any(o == "stop" and ren[gg] == 0 for gg, o, _ in log[lo:hi])
-        execs.append({"tid": ren.get(g, -1) if g is not None else -1, "stopped": stopped})
+        execs.append({"k": i, "tid": ren.get(g, -1) if g is not None else -1, "stopped": stopped[i]})
     out["execs"] = execs
     out["results"] = results
     return out
@@ -647,7 +805,7 @@ def worker_main() -> None:
     os.dup2(2, 1)
     logging.disable(logging.CRITICAL)
     vcommon.use_repo_sources()
-    base = tempfile.mkdtemp(prefix="verif-c32-")
+    base = os.environ.get("C32_BASE") or tempfile.mkdtemp(prefix="verif-c32-")
     sys.path.insert(0, base)
     envs: dict = {}
     try:
@@ -683,8 +841,9 @@ class C32(PropertyCheck):
     n_search = 2000
     hist_every = 300
     rule = ("sched: schedules of ≤ 48 tracer calls by ≤ 5 real threads (executor-shaped interleavings "
-            "with abandoned threads waking up later, and free schedules); hist: histories of 4–8 test "
-            "cases on the real TestCaseExecutor with real timeouts; non-trivial = a thread that is not "
+            "with abandoned threads waking up later, and free schedules); hist: histories of 4–11 test "
+            "cases (loops, parked threads, late finishers) on the real TestCaseExecutor with real "
+            "timeouts and an observer; non-trivial = a thread that is not "
             "current makes a guarded call while another thread records afterwards (sched), or a history "
             "with at least one abandoned execution followed by a terminating test case (hist)")
     assumptions = [
@@ -699,16 +858,20 @@ class C32(PropertyCheck):
     ]
     trusted_base_extra = [
         "harness/c32.py: the one-call-at-a-time thread controller, the recording ExecutionTracer "
-        "subclass (outermost calls logged under a lock), the gate module used to park threads",
+        "subclass and result-queue wrapper (outermost calls and puts logged under a lock), the gate "
+        "module used to park threads, the value-rendering observer",
     ]
 
     def __init__(self, tier, seed):
         super().__init__(tier, seed)
         self._gen_i = 0
         self._child = None
+        self._bases: list = []
         self.extra_coverage.update({"hist_cases": 0, "hist_tests": 0, "hist_abandoned": 0,
                                     "hist_later_results_lost": 0, "hist_slow": 0,
-                                    "hist_recorded_events": 0})
+                                    "hist_recorded_events": 0, "hist_late_finishers": 0,
+                                    "hist_late_puts": 0, "hist_late_abandoned": 0,
+                                    "hist_shared_queue_would_differ": 0})
 
     # -- generation ---------------------------------------------------------------------------
     def _rand_cb(self, rng):
@@ -793,14 +956,41 @@ class C32(PropertyCheck):
         frac = rng.random()
         maxT, per = (1, 1) if frac < 0.25 else (0.5, 0.5)
         n_tests = rng.randint(4, 7) if self.tier == "quick" else rng.randint(4, 9)
-        tests, parked, loops = [], [], 0
+        tests, parked, gates, loops = [], [], {}, 0
         k = 0
+        want_late = rng.random() < 0.6      # histories with at least one late finisher
         for i in range(n_tests):
             kind = rng.random()
             can_loop = loops < (3 if self.tier == "quick" else 4) and i < n_tests - 1
-            if can_loop and kind < 0.45:
-                which = rng.choice(["spin", "spin_tick", "nap", "nap", "swallow"])
+            force_late = want_late and can_loop and i == min(1, n_tests - 2)
+            if can_loop and (kind < 0.45 or force_late):
+                which = rng.choice(["spin", "spin_tick", "nap", "nap", "swallow", "late", "late", "late"])
+                if force_late:
+                    which, want_late = "late", False
                 a = rng.randint(-3, 6)
+                if which == "late":
+                    # a LATE FINISHER: terminates, but its tail after the last thread check (observer
+                    # rendering the bound value / after-test-case observer) outlasts the time bound
+                    k += 1
+                    where = rng.choice(["obs", "obs", "post", "mid"])
+                    rel = rng.choice(["stop", "stop", "stop", "poke", "timer"])
+                    stmts = [f"late_post({k}, {a})" if where == "post" else f"late({k}, {a})"]
+                    if where == "mid":      # slow observer of a statement that is NOT the last one
+                        stmts.append(f"work({rng.randint(-3, 6)})")
+                    elif rng.random() < 0.3:
+                        stmts.insert(0, f"work({rng.randint(-3, 6)})")
+                    if rel == "timer":
+                        if maxT >= 1:   # wakes in the middle of the grace period: margin maxT/2 both ways
+                            gates[str(k)] = ["timer", min(maxT, per * len(stmts)) + maxT / 2]
+                        else:
+                            rel = "stop"
+                    if rel == "poke":
+                        parked.append(k)
+                    if rel != "timer":
+                        gates[str(k)] = rel
+                    tests.append({"stmts": stmts, "loops": False, "late": f"{where}/{rel}"})
+                    loops += 1
+                    continue
                 if which in ("nap", "swallow"):
                     k += 1
                     parked.append(k)
@@ -823,7 +1013,8 @@ class C32(PropertyCheck):
                     else:
                         stmts.append(f"work({rng.randint(-3, 6)})")
                 tests.append({"stmts": stmts, "loops": False})
-        return {"kind": "hist", "metrics": metrics, "maxT": maxT, "perStmt": per, "tests": tests}
+        return {"kind": "hist", "metrics": metrics, "maxT": maxT, "perStmt": per, "gates": gates,
+                "tests": tests}
 
     def gen_case(self, rng):
         self._gen_i += 1
@@ -834,8 +1025,12 @@ class C32(PropertyCheck):
     # -- implementation -------------------------------------------------------------------------
     def _child_proc(self):
         if self._child is None or self._child.poll() is not None:
+            import tempfile
             env = dict(os.environ)
             env["VERIF_REPO"] = str(vcommon.REPO)
+            # the child's scratch directory is owned (and removed) by the parent: a killed child cannot
+            env["C32_BASE"] = tempfile.mkdtemp(prefix="verif-c32-")
+            self._bases.append(env["C32_BASE"])
             self._child = subprocess.Popen(
                 [vcommon.PY, os.path.abspath(__file__), "--hist-worker"], stdin=subprocess.PIPE,
                 stdout=subprocess.PIPE, stderr=subprocess.DEVNULL, text=True, env=env,
@@ -877,35 +1072,53 @@ class C32(PropertyCheck):
             self.count("sched:events", len(case["evs"]))
             return run_schedule(case)
         ans = self._run_hist(case)
-        case["recorded"] = {k: ans.get(k) for k in ("n", "evs", "execs", "raised", "truncated", "pre")}
+        case["recorded"] = {k: ans.get(k) for k in ("n", "hist", "execs", "raised", "truncated", "pre")}
         self.count("hist")
         ec = self.extra_coverage
         ec["hist_cases"] += 1
         ec["hist_tests"] += len(case["tests"])
         ec["hist_abandoned"] += sum(1 for t in case["tests"] if t["loops"])
-        ec["hist_recorded_events"] += len(ans.get("evs") or [])
+        ec["hist_recorded_events"] += len(ans.get("hist") or [])
+        ec["hist_late_finishers"] += sum(1 for t in case["tests"] if t.get("late"))
+        ec["hist_late_puts"] += ans.get("late_puts") or 0
+        for t in case["tests"]:
+            if t.get("late"):
+                self.count("hist:late:" + t["late"])
         for t in case["tests"]:
             for s in t["stmts"]:
                 self.count("hist:call:" + s.split("(")[0])
         return {k: ans.get(k) for k in ("results", "solo", "hang", "undead", "notes")}
 
     def _kill_child(self):
+        import shutil
         try:
             if self._child is not None and self._child.poll() is None:
                 self._child.kill()
+                self._child.wait(10)
         except Exception:  # noqa: BLE001
             pass
+        for b in self._bases:
+            shutil.rmtree(b, ignore_errors=True)
 
     # -- model ----------------------------------------------------------------------------------
     def model_line(self, case):
         if case["kind"] == "sched":
-            return vcommon.jdump({"n": case["n"], "execs": [],
+            return vcommon.jdump({"n": case["n"], "execs": [], "hist": [],
                                   "evs": [{"tid": t, "op": op_of(o)} for t, o in case["evs"]]})
         rec = case.get("recorded") or {}
-        if not rec.get("evs"):
+        if not rec.get("hist"):
             return None
-        return vcommon.jdump({"n": rec["n"], "execs": [e for e in rec["execs"] if e["tid"] >= 0],
-                              "evs": [{"tid": t, "op": op_of(o)} for t, o in rec["evs"]]})
+
+        def hev(e):
+            if e[0] == "call":
+                return {"call": {"e": {"tid": e[1], "op": op_of(e[2])}}}
+            if e[0] == "put":
+                return {"put": {"k": e[1], "t": e[2], "exc": e[3]}}
+            return {"collect": {"k": e[1], "alive": bool(e[2])}}
+
+        return vcommon.jdump({"n": rec["n"], "evs": [], "hist": [hev(e) for e in rec["hist"]],
+                              "execs": [{"k": e["k"], "tid": e["tid"]} for e in rec["execs"]
+                                        if e["tid"] >= 0]})
 
     def compare(self, case, io, mo):
         if "raised" not in mo:
@@ -916,15 +1129,19 @@ class C32(PropertyCheck):
                     and [{"enabled": l["enabled"], "trace": norm_model_trace(l["trace"])}
                          for l in mo["locals"]] == io["locals"])
         rec = case["recorded"]
+        if mo.get("sharedDiffers"):
+            self.extra_coverage["hist_shared_queue_would_differ"] += 1
         if mo["raised"] != rec["raised"]:
             return False
-        by_tid = {e["tid"]: e for e in mo["execs"]}
+        by_k = {e["k"]: e for e in mo["execs"]}
         for ex, res in zip(rec["execs"], io["results"]):
             if ex["tid"] < 0:           # the test thread never reached the tracer before the timeout
                 if not res["timeout"]:
                     return False
                 continue
-            m = by_tid[ex["tid"]]
+            m = by_k[ex["k"]]
+            if not m["collected"]:
+                return False
             if ex["tid"] in rec["truncated"]:
                 if not res["timeout"]:
                     return False
@@ -933,10 +1150,14 @@ class C32(PropertyCheck):
                 if m["result"] != "timeout":
                     return False
             else:
-                if m["result"] == "timeout" or norm_model_trace(m["result"]) != res["trace"]:
+                # a returned result: produced by this very execution's thread, trace and exceptions as
+                # in the model, the thread's calls have the modelled executor shape and the model's
+                # solo trace equals the returned one
+                r = m["result"]
+                if (r == "timeout" or r["producer"] != ex["k"]
+                        or norm_model_trace(r["trace"]) != res["trace"]
+                        or r["exc"] != exc_ids(res["exceptions"])):
                     return False
-                # a delivered result: the thread's calls have the modelled executor shape and the
-                # model's solo trace equals the delivered one
                 if m["form"].get("shape") != "exec" or m["form"].get("soloEq") is not True:
                     return False
         return True
@@ -984,7 +1205,9 @@ class C32(PropertyCheck):
                 continue
             solo = io["solo"].get(json.dumps(t["stmts"]))
             if res["timeout"]:
-                ec["hist_later_results_lost"] += 1
+                # a late finisher is abandoned by design; any other terminating test case reported as
+                # timeout lost its result (stale __exit__ of a dying abandoned thread): not an addition
+                ec["hist_late_abandoned" if t.get("late") else "hist_later_results_lost"] += 1
                 continue
             if solo is None:
                 self.count("hist:solo-unavailable")
@@ -994,7 +1217,7 @@ class C32(PropertyCheck):
             over = [[p, c] for p, c in res["trace"]["preds"] if c > counts.get(p, 0)]
             exc = [e for e in res["exceptions"] if e not in solo["exceptions"]]
             if extra or over or exc:
-                before = [tt["stmts"] for tt in case["tests"][:i] if tt["loops"]]
+                before = [tt["stmts"] for tt in case["tests"][:i] if tt["loops"] or tt.get("late")]
                 fs.append(Failure({"kind": "hist", "class": "later-result-polluted"},
                                   f"test #{i} {t['stmts']} executed after the abandoned executions "
                                   f"{before} reports items {sorted(extra)[:5]} / predicate counts {over[:3]} "
@@ -1007,7 +1230,7 @@ class C32(PropertyCheck):
         if case["kind"] == "hist":
             seen_loop = False
             for t in case["tests"]:
-                if t["loops"]:
+                if t["loops"] or t.get("late"):
                     seen_loop = True
                 elif seen_loop:
                     return vcommon.jdump({k: v for k, v in case.items() if k != "recorded"})
